@@ -113,7 +113,8 @@ class Plane:
         :rtype: bool
 
         """
-        return abs(np.dot(self.n, p) + self.d) < tol
+        # tolerance relative to the magnitude of the data (absolute for data of unit size or less)
+        return abs(np.dot(self.n, p) + self.d) < tol * max(1, np.linalg.norm(self.n) * np.linalg.norm(p) + abs(self.d))
     
     def __str__(self):
         """
@@ -511,11 +512,19 @@ class Plucker(SMUserList):
         """
         if base.isvector(x, 3):
             x = base.getvector(x)
-            return np.linalg.norm( np.cross(x - self.pp, self.w) ) < tol
+            return np.linalg.norm( np.cross(x - self.pp, self.w) ) < tol * self._scale(x)
         elif base.ismatrix(x, (3,None)):
-            return [np.linalg.norm(np.cross(_ - self.pp, self.w)) < tol for _ in x.T]
+            return [np.linalg.norm(np.cross(_ - self.pp, self.w)) < tol * self._scale(_) for _ in x.T]
         else:
             raise ValueError('bad argument')
+
+    def _scale(self, x):
+        # magnitude of the moment of a point about the line: tolerances are relative to it (absolute for unit-size data)
+        return max(1, (np.linalg.norm(x) + np.linalg.norm(self.pp)) * np.linalg.norm(self.w))
+
+    def _scale2(self, l2):
+        # magnitude of the reciprocal product of two lines
+        return max(1, np.linalg.norm(self.v) * np.linalg.norm(l2.w) + np.linalg.norm(l2.v) * np.linalg.norm(self.w))
 
     def __eq__(self, l2):  # pylint: disable=no-self-argument
         """
@@ -620,7 +629,7 @@ class Plucker(SMUserList):
         :seealso: Plucker.intersects, Plucker.parallel
         """
         l1 = self
-        return not l1.isparallel(l2) and (abs(l1 * l2) < 10*_eps )
+        return not l1.isparallel(l2) and (abs(l1 * l2) < 10*_eps * l1._scale2(l2))
     
     # ------------------------------------------------------------------------- #
     #  PLUCKER LINE DISTANCE AND INTERSECTION
@@ -677,7 +686,7 @@ class Plucker(SMUserList):
             l = np.linalg.norm(np.cross(l1.w, l1.v - l2.v * np.dot(l1.w, l2.w) / np.dot(l2.w, l2.w))) / np.dot(l1.w, l1.w)
         else:
             # lines are not parallel
-            if abs(l1 * l2) < 10*_eps:
+            if abs(l1 * l2) < 10*_eps * l1._scale2(l2):
                 # lines intersect at a point
                 l = 0
             else:
